@@ -49,10 +49,12 @@ BB_NOTE = ["black-box: uses only BudgetEnforcer::new / observe / finalize, concr
 BB_STREAMS = {"keyseq": "{? [a] : <<, other: x} (8 events, AllContent)", "keymap": "{? {k: x} : v, <<: {}} (10 events, AllContent)",
               "anchors": "{a: &1 [&2 x], b: *1, \"<<\": *1} (11 events, AllContent)", "twodocs": "two documents re-using anchor id 1 (10 events, PerDocument)",
               "abandoned": "document abandoned with two containers open, boundary, full document (10 events, PerDocument)", "allcontent": "two documents (10 events, AllContent)"}
+BB_THOROUGH = ("keymap_within", "anchors_within", "abandoned_within", "abandoned_nodelimit", "twodocs_within")
 for _n in ("keyseq_within", "keyseq_mergelimit", "keymap_within", "keymap_mergelimit", "anchors_within", "anchors_anchorlimit", "anchors_aliaslimit",
            "twodocs_within", "twodocs_eventlimit", "twodocs_anchorlimit", "abandoned_within", "abandoned_depthlimit", "abandoned_nodelimit", "allcontent_within"):
     _stream, _mode = _n.split("_")
-    H("c07_bb_" + _n, "budget", ["C07"], expect_s=90, timeout=900, blackbox=True, mem_gb=20, weight=2, functions=["budget::BudgetEnforcer::new", "budget::BudgetEnforcer::observe", "budget::BudgetEnforcer::finalize"],
+    H("c07_bb_" + _n, "budget", ["C07"], tier=("thorough" if _n in BB_THOROUGH else "quick"), expect_s=(1500 if _n in BB_THOROUGH else 90), timeout=(3000 if _n in BB_THOROUGH else 900), blackbox=True,
+      mem_gb=(40 if _n in BB_THOROUGH else 20), weight=(5 if _n in BB_THOROUGH else 2), functions=["budget::BudgetEnforcer::new", "budget::BudgetEnforcer::observe", "budget::BudgetEnforcer::finalize"],
       claim=("scenario, all limits free but admitting the stream: no event is rejected, the final report equals an independent count (events, nodes, depth, aliases, anchors, scalar bytes, merge keys with key/value position tracking), ratio verdict = documented inequality"
              if _mode == "within" else "scenario, exactly one limit free (" + _mode + "): observe() fails at exactly the event at which the independent count first exceeds it"),
       bound="concrete event list: " + BB_STREAMS[_stream], assumes=BB_NOTE)
@@ -133,12 +135,17 @@ for _n, _desc, _tier, _exp in (
         ("c06_wide_bin_i8_pos", "i8 0b + 8 binary digits", "quick", 60), ("c06_wide_bin_i8_neg", "i8 -0b + 8 binary digits", "quick", 60), ("c06_wide_bin_u8", "u8 0b + 9 binary digits", "quick", 60),
         ("c06_wide_hex_i32_pos", "i32 0x + 8 hex digits", "quick", 120), ("c06_wide_hex_i32_neg", "i32 -0x + 8 hex digits", "quick", 120), ("c06_wide_hex_u32", "u32 0x + 9 hex digits", "quick", 120),
         ("c06_wide_hex_i64_pos", "i64 0x + 16 hex digits", "thorough", 600), ("c06_wide_hex_i64_neg", "i64 -0x + 16 hex digits", "thorough", 600), ("c06_wide_hex_u64", "u64 0x + 17 hex digits", "thorough", 600),
-        ("c06_wide_hex32_i64_pos", "i64 0x + 32 hex digits (magnitudes up to 2^128-1)", "quick", 300), ("c06_wide_hex32_i64_neg", "i64 -0x + 32 hex digits", "quick", 300),
+        ("c06_wide_hex32_i64_pos", "i64 0x + 32 hex digits (magnitudes up to 2^128-1)", "thorough", 2400), ("c06_wide_hex32_i64_neg", "i64 -0x + 32 hex digits", "thorough", 2400),
         ("c06_wide_hex32_i128_pos", "i128 0x + 32 hex digits", "thorough", 600), ("c06_wide_hex32_i128_neg", "i128 -0x + 32 hex digits", "thorough", 600),
         ("c06_wide_hex33_u128", "u128 0x + 33 hex digits", "thorough", 600),
         ("c06_wide_oct_i64_pos", "i64 0o + 21 octal digits", "thorough", 900), ("c06_wide_oct_u64", "u64 0o + 22 octal digits", "thorough", 900)):
     H(_n, "parse_scalars", ["C06"], tier=_tier, expect_s=_exp, timeout=max(900, _exp * 4), functions=INT_FUNCS, claim=WIDE_CLAIM,
       bound="concrete skeleton, every digit symbolic in its radix class (hex: both cases), leading zeros included: " + _desc, assumes=[STD_STUBS])
+for _n, _desc in (("c06_hex32_top_i64_f", "i64 target, 0x XY ffff…f (30 f)"), ("c06_hex32_top_i64_neg_f", "i64 target, -0x XY ffff…f"),
+                  ("c06_hex32_top_i128_0", "i128 target, 0x XY 0000…0 (30 zeros)"), ("c06_hex32_top_i128_neg_0", "i128 target, -0x XY 0000…0")):
+    H(_n, "parse_scalars", ["C06"], tier=("quick" if _n == "c06_hex32_top_i64_f" else "thorough"), expect_s=900, timeout=2700, functions=INT_FUNCS,
+      claim="128-bit boundary of the u128 -> i128 -> T narrowing: a 32-digit hex magnitude is accepted iff it fits the signed target (never wrapped to a small negative number), and then exact",
+      bound="two most significant hex digits symbolic (all 256 values), 30 lower digits concrete: " + _desc, assumes=[STD_STUBS])
 for _n, _N, _tier in (("c06_bool_3", 3, "quick"), ("c06_bool_4", 4, "quick"), ("c06_bool_5", 5, "thorough")):
     H(_n, "parse_scalars", ["C06", "C01"], tier=_tier, expect_s=60 * (_N - 2), functions=["parse_scalars::parse_yaml11_bool"],
       claim="Ok(b) iff the trimmed token is, case-insensitively, one of true/yes/y/on (b=true) or false/no/n/off (b=false)",
@@ -152,7 +159,8 @@ H("c06_leading_zero_4", "parse_scalars", ["C06"], expect_s=60, functions=["parse
 for _n, _N, _tier in (("c06_float_special_4", 4, "quick"), ("c06_float_special_5", 5, "quick"), ("c06_float_special_6", 6, "thorough")):
     H(_n, "parse_scalars", ["C06"], tier=_tier, expect_s=200, timeout=1500, functions=["parse_scalars::parse_yaml12_float::<f64>", "core::num::dec2flt (real libcore code, on non-digit tokens)"],
       claim="over the alphabet of the special float forms: .nan/+.nan/-.nan -> NaN, .inf/+.inf -> +inf, -.inf -> -inf in every letter case; every other token is rejected unless Rust's own float syntax ([+-]?(inf|nan)) admits it - in particular sign combinations like -+.inf are rejected",
-      bound="all %d-byte tokens over {. + - n a i f N A I F}; decimal->binary conversion of digit strings is outside" % _N, assumes=[STD_STUBS])
+      bound="all %d-byte tokens over {. + - n a i f N A I F}; decimal->binary conversion of digit strings is outside" % _N,
+      assumes=[STD_STUBS, "<f64 as FromStr>::from_str is replaced by a stub that is exact on digit-free inputs ([+-]?(inf|infinity|nan), any case; Err otherwise)"])
 
 # --------------------------------------------------------------------------------------------
 # C09 / C10 reader adapter (src/buffered_input.rs)
@@ -191,8 +199,8 @@ for _n, _N, _tier, _exp in (("c04_skip_len_6", 6, "quick", 60), ("c04_skip_len_8
       bound="all buffers of %d events over {scalar, seq start/end, map start/end, taken} x every start index" % _N)
 
 # base64 (src/base64.rs): one final quantum per concrete padding shape
-for _n, _shape, _tier, _exp in (("c06_base64_pad2", "XY== (2 symbolic characters)", "quick", 300), ("c06_base64_pad1", "XYZ= (3 symbolic characters)", "thorough", 900), ("c06_base64_pad0", "XYZW (4 symbolic characters)", "thorough", 1200)):
-    H(_n, "base64", ["C06", "C01"], tier=_tier, expect_s=_exp, timeout=4 * _exp, mem_gb=16, functions=["base64::decode_base64_yaml", "base64::decode_val"],
+for _n, _shape, _tier, _exp in (("c06_base64_pad2", "XY== (2 symbolic characters)", "thorough", 1800), ("c06_base64_pad1", "XYZ= (3 symbolic characters)", "thorough", 900), ("c06_base64_pad0", "XYZW (4 symbolic characters)", "thorough", 1200)):
+    H(_n, "base64", ["C06", "C01"], tier=_tier, expect_s=_exp, timeout=3 * _exp, mem_gb=36, weight=5, functions=["base64::decode_base64_yaml", "base64::decode_val"],
       claim="Ok(bytes) iff the quantum is canonical RFC 4648 base64 (alphabet, padding shape, zero trailing bits), and then bytes are exact",
       bound="one 4-character quantum, shape " + _shape + ", every non-whitespace ASCII value per symbolic character; interior whitespace and multi-quantum inputs are outside this harness", assumes=[STD_STUBS])
 
@@ -223,6 +231,36 @@ for _n, _N, _tier, _exp in (("c12_write_quoted_1", 1, "quick", 200), ("c12_write
       claim="the double-quoted form of s, read by a reference reader of YAML double-quoted scalars (escape table \\\\ \\\" \\0 \\a \\b \\t \\n \\v \\f \\r \\e \\N \\L \\P \\xHH \\uHHHH; raw controls, line breaks and BOM not allowed), yields exactly s",
       bound="every valid-UTF-8 string of exactly %d bytes" % _N, assumes=[STD_STUBS, E2E])
 
+# --------------------------------------------------------------------------------------------
+# C12 / C20 block-scalar helpers (src/wrapping.rs)
+# --------------------------------------------------------------------------------------------
+H("c12_leading_spaces_4", "wrapping", ["C12"], expect_s=120, timeout=1200, functions=["wrapping::first_line_leading_spaces"],
+  claim="number of leading spaces of the first NON-EMPTY line (a line of only spaces is non-empty: it fixes the indentation the reader auto-detects, so it must trigger the explicit indentation indicator)",
+  bound="every valid-UTF-8 string of exactly 4 bytes", assumes=[STD_STUBS])
+for _n, _N, _tier, _exp in (("c20_folded_block_3", 3, "thorough", 3000), ("c20_folded_block_4", 4, "thorough", 6000)):
+    H(_n, "wrapping", ["C12"], tier=_tier, expect_s=_exp, timeout=max(1500, 2 * _exp), mem_gb=20, weight=2, functions=["wrapping::write_folded_block"],
+      claim="the folded block body, read back with the folding rules of YAML `>` scalars (single break between two non-indented lines = one space; breaks next to blank / more-indented lines kept), is the original text: wrapping happens at single spaces only and never alters content",
+      bound="every valid-UTF-8 text of exactly %d bytes without C0 controls other than \\n, not starting/ending with \\n; wrap column 1..3; indent 2" % _N,
+      assumes=[STD_STUBS, E2E + " (here: to_string(FoldStr(s)) with min_fold_chars=0 and the same wrap column -> from_str::<String>, compared modulo one trailing line break)"])
+
+# --------------------------------------------------------------------------------------------
+# C19 robotics expression evaluator (src/robotics.rs, feature `robotics`)
+# --------------------------------------------------------------------------------------------
+ROB = ["robotics::parse_yaml12_float_angle_converting::<f64>", "robotics::Parser::expr / term / unary / primary / parse_ident_or_special", "robotics::Parser::enter / exit"]
+ROB_ENV = ["operands are the constants pi / tau (no decimal literal on the path: libcore's dec2flt is outside); IEEE-754 operations on constants are folded by CBMC with round-to-nearest-even"]
+for _n, _claim, _bound, _exp in (
+    ("c19_precedence", "`[-]pi o1 tau o2 pi`: the value is bit-identical to IEEE-754 evaluation with * / binding tighter than + -, left-associative, unary minus first", "all 16 operator pairs x optional leading minus", 300),
+    ("c19_parentheses", "`(pi o1 tau) o2 pi` and `pi o1 (tau o2 pi)`: parentheses override precedence", "all 16 operator pairs x both nestings", 300),
+    ("c19_units", "`F(pi) o G(tau)`, F,G in {deg, rad}: deg() converts to radians exactly once, rad() not at all, explicit units override the tag", "4 function pairs x 4 operators x tags {none, !degrees, !radians}", 400),
+    ("c19_units_mixed_with_bare", "`F(pi) o tau`: under !degrees a bare term next to a unitized one is rejected; otherwise evaluated without tag conversion", "2 functions x 4 operators x 3 tags", 300),
+    ("c19_tag_only", "`pi o tau` under a tag: !degrees converts the whole value exactly once, !radians / no tag not at all", "4 operators x 3 tags", 200),
+    ("c19_depth_guard", "enter() admits nesting depth < 256 only, never overflows, exit() restores", "every depth 0..=256", 60),
+    ("c19_total_3", "totality: every input yields Ok or Err - no panic, index error, overflow; recursion bounded (unwinding assertions)", "all 3-byte strings over {p i t a u d e g r n f ( ) + - * / space . : _} x 3 tags", 600)):
+    H(_n, "robotics", ["C19"], tier=("quick" if _n == "c19_depth_guard" else "thorough"), expect_s=(_exp if _n == "c19_depth_guard" else 3000), timeout=(600 if _n == "c19_depth_guard" else 7200),
+      mem_gb=24, weight=3, features=["robotics"], functions=ROB, claim=_claim, bound=_bound, assumes=ROB_ENV)
+H("c19_total_4", "robotics", ["C19"], tier="thorough", expect_s=2400, timeout=5400, mem_gb=30, weight=4, features=["robotics"], functions=ROB,
+  claim="totality on 4-byte inputs", bound="all 4-byte strings over the same alphabet x 3 tags", assumes=ROB_ENV)
+
 PROP_NOTES = {
     "C07": "C07 is decided at the level of the budget automaton: one inductive step from an arbitrary state satisfying the "
            "representation invariant covers histories of any length; that LiveEvents::next_impl is the only path from parser to "
@@ -251,5 +289,48 @@ def by_name(name):
     raise KeyError(name)
 
 
+def _c19_double_rounding(tier):
+    """z3 witness for f32 double rounding with angle_conversions, replayed through the real crate."""
+    import json, os, subprocess, time
+    t0 = time.time()
+    res = {"name": "smt_c19_double_rounding", "obligations": 1, "discharged": 0, "functions": ["robotics::parse_yaml12_float_angle_converting::<f32> (FromF64 for f32: `v as f32`)", "parse_scalars::parse_yaml12_float::<f32> (str::parse::<f32>)"],
+           "assumes": ["the SMT model (evaluate in binary64, then narrow) is used only while /repo's source still matches it textually; the witness is replayed natively through from_str_with_options with the option on and off"]}
+    try:
+        p = subprocess.run(["python3-vt", "/verif/smt/c19_double_rounding.py"], capture_output=True, text=True, timeout=900)
+        out = json.loads(p.stdout.strip().splitlines()[-1])
+    except Exception as e:  # noqa
+        res.update({"verdict": "inconclusive:smt-error", "sample": {"error": str(e)}})
+        return res
+    res["sample"] = {"query": out.get("encoding"), "solver": out.get("solver"), "status": out.get("status"), "witness_literal": out.get("literal"), "solver_s": out.get("seconds")}
+    if out["status"] == "unsat" or out["status"] == "model-not-applicable":
+        res.update({"verdict": "held", "discharged": 1})
+        return res
+    if out["status"] != "sat":
+        res["verdict"] = "inconclusive:smt-" + out["status"]
+        return res
+    env = dict(os.environ, CARGO_TARGET_DIR="/verif/.build/native-target", CARGO_NET_OFFLINE="true")
+    rp = subprocess.run(["cargo", "run", "--offline", "--release", "--quiet", "--manifest-path", "/verif/native_replay/Cargo.toml", "--", "f32-angle", out["literal"]],
+                        capture_output=True, text=True, env=env, timeout=1800)
+    res["sample"]["native_replay"] = rp.stdout.strip()[-200:]
+    if rp.returncode == 1 and "DIFFERENT" in rp.stdout:
+        known = json.load(open("/verif/known_findings.json")).get("known", [])
+        k = [x for x in known if x.get("id") == "F6-f32-double-rounding"]
+        rpath = "/verif/replays/C19-smt_double_rounding.txt"
+        open(rpath, "w").write("cargo run --release --manifest-path /verif/native_replay/Cargo.toml -- f32-angle %s\n%s\n" % (out["literal"], rp.stdout))
+        res["replay"] = rpath
+        if k:
+            res.update({"verdict": "known-finding", "what": k[0]["what"]})
+        else:
+            res["verdict"] = "violated"
+    elif rp.returncode == 0:
+        res.update({"verdict": "held", "discharged": 1})   # witness does not reproduce on the real crate: no finding
+    else:
+        res["verdict"] = "inconclusive:native-replay-failed"
+    res["wall_s"] = round(time.time() - t0, 1)
+    return res
+
+
 def extra_checks(prop, tier):
+    if prop == "C19":
+        return [_c19_double_rounding]
     return []
